@@ -31,11 +31,13 @@ ASSUME = ["integer lattice: catalogue 0..8, enumerated families 0..2 / 0..3 / 0.
 
 Q = 2048
 SMALL = '{"cat","line","tri","rect","ls3"}'
+POOLED = '{"pool","mpool","gcpool","touch"}'
 
 
 def _poly_runs(tier):
     if tier == "quick":
-        return [dict(name="g3v5", constants=dict(K=3, MaxV=5, WithHoles=True, HoleMinA2=0))]
+        return [dict(name="g3v5", constants=dict(K=3, MaxV=5, WithHoles=True, HoleMinA2=0)),
+                dict(name="g4v4big", constants=dict(K=4, MaxV=4, WithHoles=True, HoleMinA2=20))]
     return [dict(name="g3v5", constants=dict(K=3, MaxV=5, WithHoles=True, HoleMinA2=0)),
             dict(name="g4v4", constants=dict(K=4, MaxV=4, WithHoles=True, HoleMinA2=0))]
 
@@ -173,11 +175,11 @@ def check(tier, seed, t0):
     cases, _ = _generate("C12_closest_small", "closest", SMALL, 1, 1, seed, None, runs)
     _execute("closest_small", cases, seed, acc, runs)
     os.remove(cases)
-    cases, _ = _generate("C12_closest_pool", "closest", '{"pool","mpool"}', 16 if quick else 3, 8 if quick else 3, seed, pool, runs)
+    cases, _ = _generate("C12_closest_pool", "closest", POOLED, 24 if quick else 3, 8 if quick else 3, seed, pool, runs)
     _execute("closest_pool", cases, seed, acc, runs)
     os.remove(cases)
     # interior_point
-    cases, _ = _generate("C12_interior", "interior", '{"cat","line","tri","rect","ls3","pool","mpool"}', 1, 4 if quick else 1, seed, pool, runs)
+    cases, _ = _generate("C12_interior", "interior", SMALL[:-1] + "," + POOLED[1:], 1, 4 if quick else 1, seed, pool, runs)
     _execute("interior", cases, seed, acc, runs)
     os.remove(cases)
     if acc.extra.get("closest_cases", 0) == 0 or acc.extra.get("interior_events", 0) == 0:
